@@ -53,6 +53,8 @@ type Case struct {
 	Batch     string   `json:"batch,omitempty"` // roam: batchMode of the relay ("no" = generic loop, "" = platform default = sendmmsg)
 	Hist      string   `json:"hist,omitempty"`  // roam: the client's address family per step, e.g. "464"
 	Steps     []HStep  `json:"steps,omitempty"` // hist: the packets of the history
+	Down      bool     `json:"down,omitempty"`  // hist: server -> client direction
+	Res       string   `json:"res,omitempty"`   // direct client with a domain target: the scripted resolver's answer ("4:hex" / "6:hex"), "" = failure
 }
 
 // ---------- the statement's own arithmetic ----------
@@ -236,7 +238,22 @@ func (w *world) prime() error {
 	return nil
 }
 
-func dirLimit(mtu int, addr string) int { return specLimit(mtu, isV6(addr)) }
+// dirLimit: the direct client's limit follows the family of the address the packet goes to; for a domain
+// target that is the resolver's answer.
+func dirLimit(mtu int, addr string, res ...string) int {
+	if strings.HasPrefix(addr, "d:") && len(res) == 1 && res[0] != "" {
+		return specLimit(mtu, isV6(res[0]+":0"))
+	}
+	return specLimit(mtu, isV6(addr))
+}
+
+// directAllowed: a domain target whose resolution fails is refused with the resolver's error.
+func directAllowed(p proto, addr, res string) string {
+	if p.name == "direct" && strings.HasPrefix(addr, "d:") && res == "" {
+		return "err:resolve"
+	}
+	return ""
+}
 
 // ---------- flows ----------
 
@@ -278,6 +295,7 @@ func mustWorld(p proto, mtu int, srv6 bool, c Case, salt uint64) *world {
 	if err != nil {
 		panic(err)
 	}
+	w.res = c.Res
 	return w
 }
 
@@ -303,11 +321,11 @@ func runPair(s *script, c Case) {
 	before := clone(b)
 	limit := specLimit(c.MTU, c.Srv6)
 	if p.name == "direct" {
-		limit = dirLimit(c.MTU, c.Addr)
+		limit = dirLimit(c.MTU, c.Addr, c.Res)
 	}
 	r := s.clientPack(w, b, c.Addr, start, c.Len, c.PolC, nil)
 	inContract := start >= front && behind >= rear
-	s.oraclePack(key+":client-pack", inContract, r, b, before, start, c.Len, limit, front+c.Len+rear <= limit, "")
+	s.oraclePack(key+":client-pack", inContract, r, b, before, start, c.Len, limit, front+c.Len+rear <= limit, directAllowed(p, c.Addr, c.Res))
 	if r.ok() {
 		s.tag("pack-ok")
 		ts, _ := w.tsOfClientPacket(b, r)
@@ -380,7 +398,7 @@ func mustTunnel(t string) conn.Addr {
 
 func runUp(s *script, c Case) {
 	sp, cp := parseProto(c.S), parseProto(c.C)
-	ws := mustWorld(sp, c.RMTU, false, c, 2) // remote client + our server
+	ws := mustWorld(sp, c.RMTU, false, c, 2)  // remote client + our server
 	wc := mustWorld(cp, c.CMTU, c.Srv6, c, 3) // our client + the far server
 	s.info(ws, false)
 	s.info(wc, c.Srv6)
@@ -438,11 +456,11 @@ func runUp(s *script, c Case) {
 	front2, rear2 := specFront(cp, false, alen2), specRear(cp)
 	limit := specLimit(c.CMTU, c.Srv6)
 	if cp.name == "direct" {
-		limit = dirLimit(c.CMTU, u.addr)
+		limit = dirLimit(c.CMTU, u.addr, c.Res)
 	}
 	before := clone(b)
 	r2 := s.clientPack(wc, b, u.addr, u.ps, u.pl, c.PolS, &win{h.Front, h.Front + r.pl})
-	s.oraclePack(key+":client-repack", true, r2, b, before, u.ps, u.pl, limit, front2+u.pl+rear2 <= limit, "")
+	s.oraclePack(key+":client-repack", true, r2, b, before, u.ps, u.pl, limit, front2+u.pl+rear2 <= limit, directAllowed(cp, u.addr, c.Res))
 	if !r2.ok() {
 		return
 	}
@@ -596,9 +614,16 @@ func record(rep *common.Report, r result, haveDriver bool) {
 	case "roam":
 		rep.Count("roam " + c.S + " batch=" + c.Batch)
 	case "hist":
-		rep.Count("hist " + c.C)
+		if c.Down {
+			rep.Count("hist-down " + c.C)
+		} else {
+			rep.Count("hist " + c.C)
+		}
 	default:
 		rep.Count(c.Kind + " " + c.S + "/" + c.C)
+	}
+	if (c.Kind == "pair" || c.Kind == "up") && c.C == "direct" && strings.HasPrefix(c.Addr, "d:") {
+		rep.Count("direct-client domain target, resolver " + map[bool]string{true: "fails", false: "answers"}[c.Res == ""])
 	}
 	rep.Count(fmt.Sprintf("mtu=%d", c.MTU))
 	if c.Kind != "roam" && c.Kind != "hist" {
@@ -718,6 +743,9 @@ func main() {
 		nHist := o.Budget(1500, 60000)
 		for i := 0; i < nHist; i++ {
 			cases = append(cases, genHist(r.Fork(uint64(1<<41+i)), i))
+		}
+		for i := 0; i < nHist/2; i++ {
+			cases = append(cases, genHistDown(r.Fork(uint64(1<<42+i)), i))
 		}
 		nPair := o.Budget(4000, 120000)
 		nRelay := o.Budget(2500, 60000)
